@@ -18,11 +18,12 @@ use crate::jsonw::{emit, emit_violation, J};
 use crate::w_instance::Class;
 use crate::arg_u64;
 
-const ENTRIES: [&str; 16] = [
+const ENTRIES: [&str; 17] = [
     "registry::register", "registry::register_sigaction", "registry::register_unchecked", "registry::register_signal_unchecked",
     "low_level::register", "flag::register", "flag::register_usize", "flag::register_conditional_shutdown",
     "flag::register_conditional_default", "pipe::register", "pipe::register_raw", "Signals::new",
     "SignalsInfo<WithRawSiginfo>::new", "SignalsInfo<WithOrigin>::new", "Handle::add_signal", "SignalDelivery::with_pipe",
+    "Handle::add_signal (closed instance)",
 ];
 
 fn kernel_accepts(n: c_int) -> bool {
@@ -49,7 +50,7 @@ fn expected(entry: usize, n: c_int) -> Class {
                 Class::Err
             }
         }
-        11..=15 => {
+        11..=16 => {
             if n < 0 || n >= 128 || forbidden {
                 Class::Panic
             } else if kernel_accepts(n) {
@@ -107,7 +108,7 @@ fn observer(s: u32, _a: usize, _b: usize) {
 
 /// Calls entry point `e` with number `n`. Returns (class, resource check closure result):
 /// the second value lists problems with resources that must have been released on refusal.
-fn call(e: usize, n: c_int, problems: &mut Vec<String>) -> Class {
+fn call(e: usize, n: c_int, fd0: bool, problems: &mut Vec<String>) -> Class {
     let flag = Arc::new(AtomicBool::new(false));
     let uflag = Arc::new(AtomicUsize::new(0));
     let mut fd_to_check: Option<c_int> = None;
@@ -115,6 +116,16 @@ fn call(e: usize, n: c_int, problems: &mut Vec<String>) -> Class {
     let mut raw_pipe = [-1; 2];
     if e == 10 {
         unsafe { libc::pipe(raw_pipe.as_mut_ptr()) };
+        if fd0 && raw_pipe[0] == 0 {
+            // descriptor 0 was free: make the write end the one with number 0
+            unsafe {
+                let r = libc::dup(raw_pipe[0]);
+                libc::close(0);
+                let w = libc::dup(raw_pipe[1]);
+                libc::close(raw_pipe[1]);
+                raw_pipe = [r, w];
+            }
+        }
     }
     let guard = if e <= 4 { Some(ReentrantGuard::new()) } else { None };
     let drops0 = GUARD_DROPS.load(Ordering::SeqCst);
@@ -131,7 +142,9 @@ fn call(e: usize, n: c_int, problems: &mut Vec<String>) -> Class {
             7 => signal_hook::flag::register_conditional_shutdown(n, 3, flag.clone()).map(|_| ()),
             8 => signal_hook::flag::register_conditional_default(n, flag.clone()).map(|_| ()),
             9 => {
-                let (r, w) = UnixStream::pair()?;
+                let (a, b) = UnixStream::pair()?;
+                // with descriptor 0 free the end that got number 0 is the one handed over
+                let (r, w) = if a.as_raw_fd() == 0 { (b, a) } else { (a, b) };
                 fd_to_check = Some(w.as_raw_fd());
                 keep.push(Box::new(r));
                 signal_hook::low_level::pipe::register(n, w).map(|_| ())
@@ -147,6 +160,15 @@ fn call(e: usize, n: c_int, problems: &mut Vec<String>) -> Class {
             14 => {
                 let s = Signals::new([libc::SIGWINCH])?;
                 let r = s.handle().add_signal(n);
+                keep.push(Box::new(s));
+                r
+            }
+            16 => {
+                // a closed instance refuses exactly what an open one refuses
+                let s = Signals::new([libc::SIGWINCH])?;
+                let h = s.handle();
+                h.close();
+                let r = h.add_signal(n);
                 keep.push(Box::new(s));
                 r
             }
@@ -210,7 +232,7 @@ fn child(e: usize, n: c_int, context: u32, fd: i32) -> i32 {
         // and every ordinary signal): the checked entry points must still refuse the forbidden ones
         let _ = unsafe { signal_hook_registry::register_signal_unchecked(n, || ()) };
     }
-    if (11..=15).contains(&e) {
+    if (11..=16).contains(&e) {
         // these entry points register SIGWINCH first: let the library own that signal already
         let _ = unsafe { signal_hook_registry::register(libc::SIGWINCH, || ()) };
     }
@@ -218,9 +240,13 @@ fn child(e: usize, n: c_int, context: u32, fd: i32) -> i32 {
         // the would-be action's captured guard owns a companion registration on SIGUSR1: the library owns that signal already
         let _ = unsafe { signal_hook_registry::register(libc::SIGUSR1, || ()) };
     }
+    if context == 3 {
+        // a process started with stdin closed: the next descriptor handed out is number 0
+        unsafe { libc::close(0) };
+    }
     let before: Vec<_> = (1..=64).map(crate::sig::disposition).collect();
     let fds_before = crate::sig::open_fds();
-    let class = call(e, n, &mut problems);
+    let class = call(e, n, context == 3, &mut problems);
     if class != Class::Ok {
         let after: Vec<_> = (1..=64).map(crate::sig::disposition).collect();
         if after != before {
@@ -231,7 +257,7 @@ fn child(e: usize, n: c_int, context: u32, fd: i32) -> i32 {
             problems.push(format!("descriptor table changed by a refused registration: {:?} -> {:?}", fds_before, crate::sig::open_fds()));
         }
         // nothing of a refused iterator instance may be left in the registry
-        if (11..=15).contains(&e) {
+        if (11..=16).contains(&e) {
             let s0 = IT_STORED.load(Ordering::SeqCst);
             unsafe { libc::raise(libc::SIGWINCH) };
             if IT_STORED.load(Ordering::SeqCst) != s0 {
@@ -248,7 +274,7 @@ fn child(e: usize, n: c_int, context: u32, fd: i32) -> i32 {
         let r0 = RUNS.load(Ordering::SeqCst);
         let mut p2 = Vec::new();
         let ok_sig = if e == 8 { libc::SIGCHLD } else { libc::SIGUSR1 };
-        let c2 = call(e, ok_sig, &mut p2);
+        let c2 = call(e, ok_sig, false, &mut p2);
         if c2 != Class::Ok {
             problems.push(format!("after the refusal, a valid registration through the same entry point gave {:?}", c2));
         } else if e != 7 {
@@ -300,8 +326,11 @@ pub fn main(args: &[String]) -> i32 {
             if only_pipe && !(forbidden.contains(&n) || [0, -1, 32, 65, 70, 128, 10].contains(&n)) {
                 continue;
             }
-            for context in 0..3u32 {
+            for context in 0..4u32 {
                 let warm = context == 1;
+                if context == 3 && e != 9 && e != 10 {
+                    continue;
+                }
                 if context == 2 && !(kernel_accepts(n) || n == libc::SIGILL || n == libc::SIGFPE || n == libc::SIGSEGV) {
                     continue;
                 }
@@ -311,7 +340,7 @@ pub fn main(args: &[String]) -> i32 {
                 }
                 let res = fork::probe_ex(20_000, false, true, move |fd| child(e, n, context, fd));
                 probes += 1;
-                let label = format!("{}({}) {}", ename, n, ["in a fresh process", "after 5 other registrations", "after an unchecked registration of the same number"][context as usize]);
+                let label = format!("{}({}) {}", ename, n, ["in a fresh process", "after 5 other registrations", "after an unchecked registration of the same number", "in a process with descriptor 0 free (the handed-over descriptor is number 0)"][context as usize]);
                 let want = expected(e, n);
                 match &res.end {
                     End::Exit(0) if res.out.contains("DONE") => {}
